@@ -88,6 +88,14 @@ def run(ck):
             j2["id"] = j["id"] + 3000000
             j2["free_fd0"] = True
             fd0.append(j2)
+    # ... and the same through the C API: the conditions are crossed, not only varied one at a time (the C boundary has its own
+    # code for handing the descriptor over -- ret.rs -- which sees a low number only when stdio is closed)
+    for j in capi:
+        if "root_fd_raw" not in j["op"] and "policy" not in j and len(fd0) % 2 == 0 or rng.random() < 0.25:
+            j2 = dict(j)
+            j2["id"] = j["id"] + 4000000
+            j2["free_fd0"] = True
+            fd0.append(j2)
     alljobs = base + faulted + sticky + capi + fd0
     byjob = {j["id"]: j for j in alljobs}
     stats = {"oracle": 0, "panics": 0, "jobs": 0, "t1_ok": 0, "t1_bad": 0, "kinds": {}, "faulted": 0}
